@@ -157,4 +157,16 @@ THEOREM DocStep ==
     BY <1>2, <2>1, <2>3, <2>8 DEF Post, Book, Inv, IsRM
   <2> QED BY <2>2, <2>5, <2>6, <2>7, <2>8
 <1> QED BY <1>3, <1>4
+
+-----------------------------------------------------------------------------
+(* C09: the window predicate over ALL naturals (TLC checks WindowFacts for 0..MaxLen+1). *)
+THEOREM WindowUnbounded ==
+  ASSUME TD \in Nat
+  PROVE  \A f, u, t \in Nat :
+           /\ (f # 0 /\ u = 0) => (InWindow(f, u, t) <=> (f <= t /\ t <= f + TD))
+           /\ (u # 0) => (InWindow(f, u, t) <=> (f <= t /\ t <= u))
+           /\ (f = 0 /\ u = 0) => InWindow(f, u, t)
+           \* an explicit until is never extended, a missing one never depends on anything but TD
+           /\ EffUntil(f, u) = IF f # 0 /\ u = 0 THEN f + TD ELSE u
+  BY DEF InWindow, EffUntil
 =============================================================================
